@@ -1223,13 +1223,25 @@ bool Annotator::AnnotatorImpl::itemsEqual(const AnyCellmlElementPtr &itemWeak, c
     case CellmlElementType::CONNECTION:
     case CellmlElementType::MAP_VARIABLES: {
         // Connections and map variables are not stored as a weak pointer. Two pairs are the same
-        // item when they hold the same two variables, in either order.
+        // map_variables item when they hold the same two variables, in either order, and the same
+        // connection item when their variables belong to the same two components, in either order.
         auto pairWeak = itemWeak->variablePair();
         auto pair = item->variablePair();
-        itemsEqual = (pairWeak == pair)
-                     || ((pairWeak != nullptr) && (pair != nullptr)
-                         && (((pairWeak->variable1() == pair->variable1()) && (pairWeak->variable2() == pair->variable2()))
-                             || ((pairWeak->variable1() == pair->variable2()) && (pairWeak->variable2() == pair->variable1()))));
+        if (pairWeak == pair) {
+            itemsEqual = true;
+        } else if ((pairWeak != nullptr) && (pair != nullptr)) {
+            if (itemWeak->type() == CellmlElementType::MAP_VARIABLES) {
+                itemsEqual = ((pairWeak->variable1() == pair->variable1()) && (pairWeak->variable2() == pair->variable2()))
+                             || ((pairWeak->variable1() == pair->variable2()) && (pairWeak->variable2() == pair->variable1()));
+            } else {
+                auto componentWeak1 = owningComponent(pairWeak->variable1());
+                auto componentWeak2 = owningComponent(pairWeak->variable2());
+                auto component1 = owningComponent(pair->variable1());
+                auto component2 = owningComponent(pair->variable2());
+                itemsEqual = ((componentWeak1 == component1) && (componentWeak2 == component2))
+                             || ((componentWeak1 == component2) && (componentWeak2 == component1));
+            }
+        }
     } break;
     case CellmlElementType::ENCAPSULATION:
     case CellmlElementType::MODEL:
